@@ -174,8 +174,7 @@ func (s *Sched) park(t *Task, pred func() bool, site int) {
 	s.mu.Lock()
 	t.pred = pred
 	t.site = site
-	s.pseq++
-	t.parkSeq = s.pseq
+	t.parkSeq = 0 // numbered by the scheduler in label order (park order of concurrent wake-ups is real-time order)
 	s.parked[t] = true
 	if s.cur == t {
 		s.cur = nil
@@ -611,7 +610,7 @@ func (s *Sched) Run(horizon time.Duration, maxSteps int) string {
 	defer active.Store(nil)
 	end := time.NewTimer(horizon)
 	defer end.Stop()
-	var ready []*Task
+	var ready, fresh []*Task
 	oracleAlive := false
 	for {
 		synctest.Wait()
@@ -634,6 +633,19 @@ func (s *Sched) Run(horizon time.Duration, maxSteps int) string {
 		s.cur = nil
 		var settle, oracle *Task
 		ready = ready[:0]
+		fresh = fresh[:0]
+		for t := range s.parked {
+			if t.parkSeq == 0 {
+				fresh = append(fresh, t)
+			}
+		}
+		if len(fresh) > 1 {
+			sort.Slice(fresh, func(i, j int) bool { return fresh[i].Label < fresh[j].Label })
+		}
+		for _, t := range fresh {
+			s.pseq++
+			t.parkSeq = s.pseq
+		}
 		for t := range s.parked {
 			if t.settle {
 				settle = t
